@@ -298,7 +298,11 @@ class Lib(object):
         if not isinstance(recv, Obj) and not is_sym(recv) and all(not is_sym(a) and not isinstance(a, Obj) for a in args) \
                 and isinstance(recv, (bytes, str, int, tuple, frozenset, dict, struct.Struct)):
             try:
-                yield st, getattr(recv, name)(*args, **kwargs)
+                res_ = getattr(recv, name)(*args, **kwargs)
+                if isinstance(res_, (dict, list, set)) and res_ is not recv:
+                    engine.created_ids.add(id(res_))            # a new container made by this call (d.copy(), list(...))
+                    engine._keepalive.append(res_)
+                yield st, res_
             except Exception as e:
                 yield st, Raised(type(e), ExcObj(type(e)))
             return
@@ -319,7 +323,18 @@ class Lib(object):
 
     def lift_dict(self, engine, st, d, name):
         """a concrete dict used where a heap dict is expected: a FRESH heap dict with those contents"""
-        o = Obj(dict, "%s(lifted)" % name, "dict", allocated=True)
+        # ... unless it is a PRE-EXISTING object (a module-level or class-level dict the code merely refers to): then the heap
+        # dict is that shared object - not new, and every function that names it sees the same one
+        shared = id(d) not in engine.created_ids
+        if shared:
+            key = ("$shared", id(d))
+            if not hasattr(engine, "_shared_objs"):
+                engine._shared_objs = {}
+            if key in engine._shared_objs:
+                return engine._shared_objs[key]
+        o = Obj(dict, "%s(%s)" % (name, "shared" if shared else "lifted"), "dict", allocated=not shared)
+        if shared:
+            engine._shared_objs[key] = o
         m = z3.K(Val, Val.VNone)
         h = z3.K(Val, z3.BoolVal(False))
         for k, v in d.items():
